@@ -5,7 +5,6 @@ import (
 	"encoding/json"
 	"fmt"
 	"regexp"
-	"runtime"
 	"runtime/debug"
 	"strings"
 	"sync"
@@ -115,7 +114,6 @@ type C14Op struct {
 	Kind string `json:"kind"` // marshal unmarshal marshal_json unmarshal_json reuse_buf
 	Mask int    `json:"mask"`
 	Buf  int    `json:"buf,omitempty"` // shared caller buffer (unmarshal through a reused buffer)
-	N    int    `json:"n,omitempty"`   // churn: number of short-lived masks
 }
 
 type C14Caller struct {
@@ -400,10 +398,6 @@ func (c14Driver) Gen(seed uint64, tier string) *simrt.Spec {
 		no := 1 + r.Intn(6)
 		for k := 0; k < no; k++ {
 			op := C14Op{Kind: []string{"marshal", "unmarshal", "marshal_json", "unmarshal_json", "reuse_buf", "reuse_buf", "fill_buf", "unmarshal_buf", "unmarshal_buf"}[r.Intn(9)], Mask: r.Intn(nm), Buf: r.Intn(2)}
-			if r.Chance(1, 16) {
-				// short-lived masks with memory reclaimed in between (a collection is an event the program does not control)
-				op = C14Op{Kind: "churn", Mask: r.Intn(nm), N: 8 + r.Intn(40)}
-			}
 			cl.Ops = append(cl.Ops, op)
 		}
 		w.Callers = append(w.Callers, cl)
@@ -512,7 +506,6 @@ func (c14Driver) Run(spec *simrt.Spec, agg *Agg, keep bool) *Outcome {
 		f()
 	}
 	nBuilt, nErr, nCorruptErr, nCorruptOK, nProbes := 0, 0, 0, 0, 0
-	nChurn, nGC := 0, 0
 	res := w.Run(func() {
 		type ref struct {
 			fm   *fieldmask.FieldMask
@@ -700,31 +693,6 @@ func (c14Driver) Run(spec *simrt.Spec, agg *Agg, keep bool) *Outcome {
 							} else if a := c14Ans(fm); a != want.ans {
 								fail("cache-wrong-mask", "cache-wrong-mask:reused-buffer", "%s decoded the document of mask %d from a buffer the caller had reused, and got a mask that answers differently from the mask of that document: %s", who, k, firstDiff(want.ans, a))
 							}
-						case "churn":
-							// masks that live for one request: built, serialised through the cache, dropped; memory is
-							// reclaimed now and then; what Marshal returns for a mask is that mask's own text
-							for k := 0; k < op.N && class == ""; k++ {
-								idx := (op.Mask + k*7) % len(refs)
-								if refs[idx] == nil {
-									continue
-								}
-								m := work.Masks[idx]
-								fm, err := fieldmask.Options{BlackListMode: m.Black}.NewFieldMask(c14DescriptorOf(m.U), m.Paths...)
-								if err != nil {
-									continue
-								}
-								j, err := fieldmask.Marshal(fm)
-								if err != nil || !bytes.Equal(j, refs[idx].json) {
-									fail("cache-wrong-json", "cache-wrong-json:short-lived-mask", "%s: Marshal of a fresh mask built from %q returned %s, its own text is %s (err=%v)", who, m.Paths, clip(string(j)), clip(string(refs[idx].json)), err)
-								}
-								nChurn++
-								fm = nil
-								if k%6 == 5 {
-									simrt.Log("gc", "")
-									runtime.GC()
-									nGC++
-								}
-							}
 						case "reuse_buf":
 							// a caller-owned buffer reused for successive documents
 							b := bufs[op.Buf&1]
@@ -861,8 +829,6 @@ func (c14Driver) Run(spec *simrt.Spec, agg *Agg, keep bool) *Outcome {
 	o.Class, o.Sig, o.Msg = class, sig, msg
 	agg.Count("masks.built", nBuilt)
 	agg.Count("probe.path-membership-queries", nProbes)
-	agg.Count("churn.short-lived-masks", nChurn)
-	agg.Count("fault.gc-cycle-between-requests", nGC)
 	agg.Count("masks.rejected-paths", nErr)
 	agg.Count("fault.corrupt.rejected", nCorruptErr)
 	agg.Count("fault.corrupt.accepted", nCorruptOK)
